@@ -51,3 +51,18 @@ Fixpoint hmismatches_from (i : nat) (l : list hcase) : list nat :=
   | c :: r => if check_hcase c then hmismatches_from (S i) r else i :: hmismatches_from (S i) r
   end.
 Definition hmismatches (l : list hcase) : list nat := hmismatches_from 0 l.
+
+(* history replay with a narrow state projection (see Corr/Exec.v sproj) *)
+Definition shard_matches_s (sp : sproj) (m : amap account) (post : list (bytes * acctl)) : bool :=
+  state_matches_s sp {| accts := m; calls := 0; allocs := 0 |} [] post.
+Definition check_hcase_s (sp : sproj) (c : hcase) : bool :=
+  let w := wrun (wcfg_of (h_cfg c) (h_nshards c)) (world_of c) (h_ops c) in
+  list_eqb2 (shard_matches_s sp) (shards w) (h_post c)
+  && list_eqb2 msg_matches (inflight w) (h_inflight c)
+  && natset_eqb (failed w) (h_failed c).
+Fixpoint hmismatches_s_from (sp : sproj) (i : nat) (l : list hcase) : list nat :=
+  match l with
+  | [] => []
+  | c :: r => if check_hcase_s sp c then hmismatches_s_from sp (S i) r else i :: hmismatches_s_from sp (S i) r
+  end.
+Definition hmismatches_s (sp : sproj) (l : list hcase) : list nat := hmismatches_s_from sp 0 l.
